@@ -500,3 +500,20 @@ Proof.
   destruct (written_subseq_core delay evs init) as [w [Hw Hs]]. rewrite Hw. simpl.
   rewrite app_nil_r, rev_involutive. exact Hs.
 Qed.
+
+(* a reply that is on the wire at w and handed over to the receiver within lat of that (so that it
+   is delivered as a result at some t in [w, w + lat]) is written, provided w + lat is still before
+   done + exitDelay, any caller cancellation and any close of Results() *)
+Theorem late_reply_on_wire : forall delay evs w lat t id, sorted evs ->
+  In (t, EvResult id) evs -> w <= t <= w + lat ->
+  (forall d, In (d, EvDone) evs -> w + lat < d + delay) ->
+  (forall p, In (p, EvParentCancel) evs -> w + lat < p) ->
+  (forall q, In (q, EvResultsClosed) evs -> w + lat < q) ->
+  In id (written (run delay evs)).
+Proof.
+  intros delay evs w lat t id Hs Hin Ht Hd Hp Hq.
+  apply (late_reply_reported delay evs t id Hs Hin).
+  - intros d H. specialize (Hd d H). lia.
+  - intros p H. specialize (Hp p H). lia.
+  - intros q H. specialize (Hq q H). lia.
+Qed.
